@@ -248,7 +248,7 @@ def summarize(data, harnesses):
             "repo_locs": repo_locs,
             "harness_asserts": harness_asserts,
             "props": props.get(hid, {}),
-            "cbmc": (stats.get(hid) or {}).get("cbmc_stats", {}),
+            "cbmc": (stats.get(hid) or {}).get("cbmc_stats") or {},
             "errors": errs.get(hid, {}),
         }
     return res
@@ -289,7 +289,7 @@ def extract_playback_tests(log):
     tests = []
     for m in re.finditer(r"```\n(.*?)```", log, re.S):
         body = m.group(1)
-        if "kani::concrete_playback_run" in body:
+        if "kani::concrete_playback_run" in body and "Check for `cover`" not in body:
             tests.append(body)
     return tests
 
@@ -328,7 +328,12 @@ def native_replay(h, tests, tag, release=False):
     env["RUST_BACKTRACE"] = "0"
     cmd = ["cargo", "kani", "playback", "-Z", "concrete-playback", "--lib"]
     if release:
-        cmd += ["--release"]
+        # `cargo kani playback` has no --release: override the test/dev profiles through the environment instead
+        for prof in ("TEST", "DEV"):
+            env["CARGO_PROFILE_%s_OPT_LEVEL" % prof] = "3"
+            env["CARGO_PROFILE_%s_DEBUG_ASSERTIONS" % prof] = "false"
+            env["CARGO_PROFILE_%s_OVERFLOW_CHECKS" % prof] = "false"
+        env["CARGO_TARGET_DIR"] = os.path.join(TARGET, "playback_release")
     cmd += ["--", "kani_concrete_playback_" + h.name + "_", "--test-threads", "1"]
     try:
         p = subprocess.run(cmd, cwd=CRATE, env=env, stdout=subprocess.PIPE, stderr=subprocess.STDOUT,
